@@ -276,11 +276,11 @@ CHECKS = {
              'across each interior edge it is on, in increasing edge order, boundary edges add nothing. Also proved: decoding a table does not modify the '
              'dataset. BOUNDED (native, not proved): make_edge_node_array and make_face_edge_array (dictionaries keyed by node pairs) -- checked on '
              'generated meshes against an independent oracle for all 16 subsets of supplied tables x encodings, as are the two proved ones.',
-        text_extra='Also under contract: Mesh2DTopology._face_and_node_pair_iter at its yield statement for an arbitrary face (cut point; utils.pairwise on lists of 0..7 entries): the node list of face f is its own nodes in order, closed with the first, whatever the table width and fill representation.',
+        text_extra='Also under contract: Mesh2DTopology._face_and_node_pair_iter at its yield statement for an arbitrary face (cut point; utils.pairwise on lists of 0..7 entries): the node list of face f is its own nodes in order, closed with the first, whatever the table width and fill representation. Mesh2DTopology.make_edge_node_array at its dictionary update for an arbitrary side of an arbitrary face (cut point inside both loops, the pair iterator replaced by that contract): side (a, b) is recorded as member max(a, b) of the set kept under min(a, b) in a defaultdict(set) that was empty before the loops, the loops contain nothing else, and the rows returned are the (key, member) pairs of that dictionary.',
         note=TRUST + 'Assumed: VALID-UGRID (indexes in range, declared fill representation, face_dimension attribute present when the table is '
              'stored columns first; for the derived tables: the edges of one face are distinct, an edge has at most two faces, the two faces of an interior edge differ, '
-             'a face is on at most max-node interior edges), NP-MA (masked arrays), PY-INT-STR-LEN, A-INT32-SIZE. make_edge_node_array / make_face_edge_array: bounded native stand-in only.',
-        technique='AST-generated verification conditions over the real source, z3: decoding, validity, dimension discovery; two derived tables by sidecar loop invariants with ghost counting functions; the two dictionary-based derivations by bounded native comparison with an independent oracle (not proved)',
+             'a face is on at most max-node interior edges), NP-MA (masked arrays), PY-INT-STR-LEN, A-INT32-SIZE. make_edge_node_array: what the dictionary of sets keeps of the recorded pairs (each distinct pair once, Python semantics) and the resulting table are bounded native only; make_face_edge_array: bounded native stand-in only.',
+        technique='AST-generated verification conditions over the real source, z3: decoding, validity, dimension discovery; two derived tables by sidecar loop invariants with ghost counting functions; the edge-node derivation at a cut point inside its loops (what each side records); what the dictionaries of the two dictionary-based derivations hold afterwards by bounded native comparison with an independent oracle (not proved)',
         design_ref='Part III C10'),
     'C08': dict(
         category='proof',
